@@ -7,6 +7,6 @@ print("|---|---|---|---|---|")
 for d in sorted(glob.glob(f"/verif/seeded/C*-{r}")):
     m = json.load(open(os.path.join(d, "meta.json")))
     once = "yes" if not m.get("missed_by") else "**no** → strengthened"
-    by = "; ".join(f"{k}: {v}" for k, v in m["caught_by"].items())
+    by = "; ".join(f"{k}: {v}" for k, v in m["caught_by"].items()) or "**not detected** (see meta.json)"
     esc = lambda s: str(s).replace("|", "\\|")
     print(f"| {os.path.basename(d)} | {esc(m['change'])} | {esc(m['needs'])} | {once} | {esc(by)} |")
